@@ -341,6 +341,9 @@ class RefRT(object):
             for s in struct.values():
                 self._collect(s, out)
 
+    def cancel_batch(self, fr, st):
+        pass  # which requests it hits depends on the schedule: outcomes come from the observed table
+
     def sync_item(self, fr, st):
         _, site, kind, key = st
         inst = (fr.path, "s", site)
